@@ -25,7 +25,7 @@ ASSUMPTIONS = ['shift/scale relations are judged to 2 float32 ulp of |bkg|+|c| b
                'and only the final float32 cast differs',
                '3-sigma clipping iterated to its fixed point lowers the rms of Gaussian data to 0.985 s; the '
                'Gaussian clause is judged on the median of the maps with an 8-sigma sampling band']
-MIN_COUNTERS = {'reuse_pairs_compared': 2, 'runs_ok': 30, 'shift_relations': 5, 'scale_relations': 5, 'scale_relations_far_from_one': 3, 'bscale_compressed_files_checked': 2, 'masked_pixels_checked': 50,
+MIN_COUNTERS = {'reuse_pairs_compared': 2, 'runs_ok': 30, 'shift_relations': 5, 'scale_relations': 5, 'scale_relations_far_from_one': 3, 'bscale_compressed_files_checked': 2, 'bscale_negative_compared': 1, 'late_stripe_runs': 1, 'masked_pixels_checked': 50,
                 'far_pixels_checked': 1000, 'constant_images': 2, 'gauss_images': 1}
 BATCHES_PER_JOB = 4
 
@@ -144,7 +144,7 @@ def cases(seed, tier):
         rows, cols = int(rng.integers(8, 70)), int(rng.integers(8, 70))
         g = int(rng.integers(2, 9))
         out.append({'kind': 'bscale', 'shape': [rows, cols], 'seed': [seed, 'bs', i], 'grid': [g, g], 'box': [4 * g, 4 * g],
-                    'cores': int(rng.choice([1, 2])), 'bscale': float(2.0 ** rng.integers(-3, 4)) or 2.0,
+                    'cores': int(rng.choice([1, 2])), 'bscale': (float(2.0 ** rng.integers(-3, 4)) or 2.0) * (-1.0 if (i % 4 in (1, 2) or i % 8 == 4) else 1.0),
                     'raw': str(rng.choice(['float32', 'int16']))})
     n_r = 4 if tier == 'quick' else 40
     for i in range(n_r):
@@ -152,6 +152,11 @@ def cases(seed, tier):
         g = int(rng.integers(2, 9))
         out.append({'kind': 'reuse', 'shape': [rows, cols], 'seed': [seed, 'reuse', i], 'grid': [g, g], 'box': [4 * g, 4 * g],
                     'cores': int(rng.choice([1, 2])), 'change': ['bscale', 'naxis', 'content', 'shape'][i % 4]})
+    # stripes that do not arrive together: one stripe is held back for longer than any plausible internal time limit while the
+    # others wait at the barrier; the maps must not care (the statement's clauses are about the maps, whenever they arrive)
+    for i, (pt, d) in enumerate([('start', 36.0)] if tier == 'quick' else [('start', 36.0), ('start', 70.0), ('bkg_subtracted', 36.0)]):
+        out.append({'kind': 'skew', 'shape': [120, 40], 'seed': [seed, 'skew', i], 'grid': [8, 8], 'box': [32, 32], 'cores': 2,
+                    'nslice': 2, 'point': pt, 'delay': d})
     n_f = 4 if tier == 'quick' else 30
     for i in range(n_f):
         rows, cols = int(rng.integers(20, 90)), int(rng.integers(20, 90))
@@ -444,6 +449,8 @@ def run(case):
                 a = _maps(specs[0])
                 b = _maps(specs[1])
                 o.count('bscale_compared')
+                if bs < 0:
+                    o.count('bscale_negative_compared')
                 if not (a[0].tobytes() == b[0].tobytes() and a[1].tobytes() == b[1].tobytes()):
                     o.violate('bscale_image_differs_from_physical', {'raw_dtype': case['raw'], 'bscale': bs, 'config': base,
                                                                     'files_written': with_files,
@@ -519,6 +526,40 @@ def run(case):
                         'changed': ch, 'config': base, 'shape_second': list(x[0].shape), 'shape_fresh': list(y[0].shape),
                         'median_bkg_second': float(np.nanmedian(x[0])), 'median_bkg_fresh': float(np.nanmedian(y[0]))})
             o.sample = {'changed': ch, 'config': base}
+        elif kind == 'skew':
+            rng = rng_for(*case['seed'])
+            rows, cols = case['shape']
+            img = (np.round(rng.normal(200.0, 1.0, (rows, cols)) * 64) / 64).astype(F32)
+            p = os.path.join(sc, 'skew.fits')
+            bh.write_fits(p, img)
+            ref = dict(base, k=0, image=p, shape=[rows, cols], save=os.path.join(sc, 'ref'))
+            r0 = _run([ref], sc)[0]
+            o.n_eval += 1
+            if r0['status'] != 'ok':
+                o.violate('raises', {'what': 'skew reference', 'exception': r0.get('exc')}, _mech_exc(r0))
+            else:
+                stripes = bh.check_log(bh.parse_log(ref['log']), mask=True)[1]['stripes']
+                plan = {'delay': {'%s:%d' % (case['point'], stripes[0]): case['delay']}}
+                late = dict(base, k=1, image=p, shape=[rows, cols], save=os.path.join(sc, 'late'), plan=plan)
+                r1 = bh.run_specs([late], sc, hard_s=case['delay'] + 240.0)[1]
+                o.n_eval += 1
+                o.n_nontrivial += 1
+                if r1.get('status') != 'ok':
+                    if r1.get('status') == 'raised':
+                        o.violate('raises', {'what': 'one stripe %.0f s late at %s' % (case['delay'], case['point']), 'exception': r1.get('exc')})
+                    else:
+                        raise RuntimeError('BANE run with a late stripe did not complete (%s): judged by C07' % r1.get('status'))
+                else:
+                    o.count('runs_ok', 2)
+                    o.count('late_stripe_runs')
+                    b0, n0 = _maps(ref)
+                    b1, n1 = _maps(late)
+                    _single_run_clauses(o, img, b1, n1, dict(case, image={'shape': [rows, cols]}), 'one stripe late')
+                    if not (b0.tobytes() == b1.tobytes() and n0.tobytes() == n1.tobytes()):
+                        o.violate('late_stripe_changes_maps', {'plan': plan, 'config': base, 'stripes': stripes,
+                                                               'max_drms': float(np.nanmax(np.abs(n1 - n0))),
+                                                               'max_dbkg': float(np.nanmax(np.abs(b1 - b0)))})
+            o.sample = {'point': case['point'], 'delay_s': case['delay']}
         elif kind == 'files':
             from astropy.io import fits
             img = make_image(case['image'])
